@@ -1,24 +1,24 @@
-\* two Contexts in one process: 2 operations (cleanup alphabet, 2 callables, + set/del of one name), end of run, new Context, 1 operation, end of run
+\* equal layer names: a scenario layer inside a scenario layer, unnamed layers inside unnamed layers: push pop set del add_cleanup(1 callable x raising x layer)
 INIT Init
 NEXT Next
 CONSTANTS
-  OpsAt <- Ops2000
+  OpsAt <- Ops00403
   UNames = {1}
-  Vals = {1}
+  Vals = {1, 2}
   WithFailed = FALSE
   WithRoot = FALSE
   WithUseOr = FALSE
   WithReads = FALSE
   WithMode = FALSE
   WithExec = FALSE
-  MaxIds = 2
-  ArgModes = {0, 1}
+  MaxIds = 1
+  ArgModes = {0}
   WithFixtures = FALSE
   WithAttrs = TRUE
   NestSet <- NestNone
-  TwoRuns = TRUE
-  OpsB = 1
-  EqualLayers = FALSE
+  TwoRuns = FALSE
+  OpsB = 0
+  EqualLayers = TRUE
   UseOrRoot = FALSE
 INVARIANT Visible
 INVARIANT Shadow
